@@ -1943,12 +1943,13 @@ def chained_logic(
 
 def optimize_or(left: SymbolicExpression, right: SymbolicExpression) -> OR:
 
-    left_vars = left._unique_variables_.filter(
-        lambda v: not isinstance(v.value, Literal)
-    )
-    right_vars = right._unique_variables_.filter(
-        lambda v: not isinstance(v.value, Literal)
-    )
+    def ranges_over_a_domain(v: HashedValue) -> bool:
+        # literals and calls (predicates, symbolic functions, constructed instances) are computed from the other
+        # variables: they are not variables the two sides could disagree about
+        return not isinstance(v.value, Literal) and not v.value._child_vars_
+
+    left_vars = left._unique_variables_.filter(ranges_over_a_domain)
+    right_vars = right._unique_variables_.filter(ranges_over_a_domain)
     if set(left_vars.unwrapped_values) == set(right_vars.unwrapped_values):
         return ElseIf(left, right)
     else:
